@@ -233,7 +233,7 @@ def _make_empty_cog(
 
         metas.append(meta)
         im_shape = im_shape.shrink2()
-        if gbox is not None:
+        if gbox is not None and idx < nlevels:
             gbox = gbox.zoom_to(im_shape)
 
     meta = metas[0]
